@@ -321,6 +321,8 @@ def run(ctx, report: Report) -> None:
     r7 = report.rule('C01-R7', 'a comma resets every piece of per-alternative parser state (parsed token sequences)', floor=8)
     from .sem import comma_tables
     comma_tables(ctx, r7)
+    from .sem import single_token_table
+    single_token_table(ctx, r7)
 
     # ---- R8 --------------------------------------------------------------------------------------------
     r8 = report.rule('C01-R8', 'class splitting and emptiness use the CSS whitespace set', floor=3)
